@@ -51,7 +51,7 @@ CLAIMED = {
              "every derived from-buffer constructor skips exactly the bytes its base constructors consumed (20 chains) and "
              "the members a constructor chain reads are, in order and width, those write_serialization writes, and a member "
              "read under a condition is written whenever that condition holds (51 classes); (R4) switches on wire-derived selectors on the serialisation path cover every value (found and "
-             "fixed LLC's I-frame format). (R5) the accept set of are_extensions_allowed(), evaluated over all 256 type values, stays within the RFC 4884 message types (ICMP 3/11/12, ICMPv6 1/3), so the derived length byte never overwrites another field; (R6) RadioTap::trailer_size() is non-zero exactly when the parser strips an FCS (FLAGS present and FCS bit), on its full truth table.",
+             "fixed LLC's I-frame format). (R5) the accept set of are_extensions_allowed(), evaluated over all 256 type values, stays within the RFC 4884 message types (ICMP 3/11/12, ICMPv6 1/3), so the derived length byte never overwrites another field; (R6) RadioTap::trailer_size() is non-zero exactly when the parser strips an FCS (FLAGS present and FCS bit), on its full truth table. (R3 also compares, by member name and multiplicity, what the constructor chain reads with what the serialiser writes: nothing read is never written, nothing written is never read, apart from 11 tabled members filled by other means.)",
         note="NOT decided: value-dependent losses (ICMP extension recognition by checksum, DHCP END/PAD growth, option "
              "contents and their order beyond the raw option list), byte-for-byte idempotence, variable-length tails after "
              "the first option loop of a constructor.",
@@ -144,7 +144,7 @@ CLAIMED = {
              "src/crypto.cpp (payload vectors, PTK, scratch blocks, OpenSSL block/digest sizes); (R3) WPA2 keys are "
              "looked up by source pair then destination pair; (R4) the step table of RSNHandshakeCapturer::do_insert: a "
              "message is appended iff it is the next expected one and a retransmission of the last stored message leaves "
-             "the partial handshake untouched. Two genuine memory-safety defects found here were repaired with fix: commits. (R5) session keys derived from a newly captured handshake, or supplied by the user, overwrite the entry for the same address pair (map subscript assignment; insert()/emplace() keep the stale key). (R6) WEP: every registration of a password keeps key_buffer_ at least 3 + the longest key (grow-only resize through max() or a guarded resize), since decrypt() copies IV + key unchecked; (R7) a completed handshake taken from the capturer is cleared on every path afterwards (directly or through a callee that always clears).",
+             "the partial handshake untouched. Two genuine memory-safety defects found here were repaired with fix: commits. (R5) session keys derived from a newly captured handshake, or supplied by the user, overwrite the entry for the same address pair (map subscript assignment; insert()/emplace() keep the stale key). (R6) WEP: every registration of a password keeps key_buffer_ at least 3 + the longest key (grow-only resize through max() or a guarded resize), since decrypt() copies IV + key unchecked; (R7) a completed handshake taken from the capturer is cleared on every path afterwards (directly or through a callee that always clears). (R8) find_ap, extract_addr_pair, extract_addr_pair_dst and the WEP look-up select BSSID / source / destination among addr1-3 as the IEEE 802.11 To-DS/From-DS table prescribes, for the three 3-address combinations.",
         note="NOT decided: cipher correctness, PTK derivation, handshake orderings (seeded changes of that kind are not "
              "detected). One CCMP per-block offset depends on division/modulo and is listed as undecided, not proven.",
     ),
@@ -220,7 +220,7 @@ CLAIMED = {
              "instantiations) is proved in bounds from the guards that dominate it. One genuine defect found this way "
              "(RadioTap::matches_response) was repaired with a fix: commit. Of clauses 1-2 only the IPv4 address predicate is "
              "decided (R2): its truth table over the four address comparisons accepts mirrored addresses and never accepts a "
-             "packet not addressed to us or, for unicast requests, not sent by the requested host. (R4) ICMP / ICMPv6 query matching evaluated exhaustively over (request type, reply type) in the enum values, every constant compared with and an outside value, with the remaining equalities as boolean inputs: echo, timestamp and address-mask requests accept their own reply type iff identifier and sequence number are equal; no other type combination is accepted unless the enumerator names form a REQUEST/REPLY (SOLICIT/ADVERT) pair. (R5) TCP, UDP and 802.1Q: the predicate guarding the inner match, as a bit-level expression over our header bits and the reply's bytes (E-BITS), is identically true for the mirrored header (ports swapped / same VLAN id, as located by the public getters) and identically false when any single one of those bits differs.",
+             "packet not addressed to us or, for unicast requests, not sent by the requested host. (R4) ICMP / ICMPv6 query matching evaluated exhaustively over (request type, reply type) in the enum values, every constant compared with and an outside value, with the remaining equalities as boolean inputs: echo, timestamp and address-mask requests accept their own reply type iff identifier and sequence number are equal; no other type combination is accepted unless the enumerator names form a REQUEST/REPLY (SOLICIT/ADVERT) pair. (R5) TCP, UDP and 802.1Q: the predicate guarding the inner match, as a bit-level expression over our header bits and the reply's bytes (E-BITS), is identically true for the mirrored header (ports swapped / same VLAN id, as located by the public getters) and identically false when any single one of those bits differs. (R6) the size test of every matches_response accepts a reply that is exactly the header structure it overlays (no `<=` off-by-one).",
         note="The rest of clauses 1-2 (identifiers, ports, sequence numbers, other layers' predicates) is value-level and NOT decided. Assumes "
              "no overflow in additions of 32-bit lengths; little-endian arm only.",
     ),
@@ -269,7 +269,7 @@ CLAIMED = {
              "every other field keeps the value that was set; (R5) the little- and big-endian declarations of every packed "
              "header agree on the wire bits of each bit-field of equal name and width (96 fields; found and fixed PPPoE's "
              "version/type nibbles). Option-backed accessors (34) and non-scalar "
-             "parameters (100) are outside this property's scalar-field quantifier and are counted in the evidence. (R6) setters taking an IPv4/IPv6/hardware address store exactly the address's network-order image (for IPv4Address the bits of operator uint32_t()): no additional byte swap, so the serialization carries the octets in order.",
+             "parameters (100) are outside this property's scalar-field quantifier and are counted in the evidence. (R6) setters taking an IPv4/IPv6/hardware address store exactly the address's network-order image (for IPv4Address the bits of operator uint32_t()): no additional byte swap, so the serialization carries the octets in order. (R7) selector accessors (TCP::set_flag / get_flag over all 8 enumerators): value returned, other selectors untouched, value shown at the enumerator's own bit of flags(); R2 also rejects range checks whose limit is not 2^k-1; (R8) 15 length / header-length / checksum fields are stored on every path through their serialiser.",
         note="NOT decided: that bit positions are those the protocol specification assigns (R5 only makes the two "
              "declarations agree with each other); the serialisation-diff clause beyond 'only the field's own members change'; "
              "the accessor code of the big-endian #if arms (their declarations are compared by R5). Trusted: clang's record "
@@ -292,7 +292,7 @@ CLAIMED = {
              "(R6) iteration: increment_buffer / decrement_buffer (IPv6, hardware addresses) are the big-endian successor / predecessor "
              "for every carry length 0..N and return true exactly on wrap-around (abstract interpretation of the carry chain over "
              "{pivot, not pivot, any} bytes of the real length); the scalar IPv4 increment's flag means wrap-around too; the range "
-             "iterator takes its flag from increment(address_) in both the end sentinel and operator++ and compares address and flag. (R7) IPv4Address::from_prefix_length evaluated for all 33 prefix lengths and IPv6Address::from_prefix_length / operator/(HWAddress<6>, int) interpreted byte-wise for all 129 / 49: exact masks, no out-of-range shift (undefined behaviour reported as such); (R8) inet_ntop is given a buffer of at least INET6_ADDRSTRLEN / INET_ADDRSTRLEN bytes and that buffer's size.",
+             "iterator takes its flag from increment(address_) in both the end sentinel and operator++ and compares address and flag. (R7) IPv4Address::from_prefix_length evaluated for all 33 prefix lengths and IPv6Address::from_prefix_length / operator/(HWAddress<6>, int) interpreted byte-wise for all 129 / 49: exact masks, no out-of-range shift (undefined behaviour reported as such); (R8) inet_ntop is given a buffer of at least INET6_ADDRSTRLEN / INET_ADDRSTRLEN bytes and that buffer's size. (R9) the hardware-address printer maps each of the 16 nibble values to its hexadecimal digit, high nibble first.",
         note="NOT decided: IPv4/IPv6 text round trip (delegated to inet_pton/ntop), agreement of < with numeric byte order "
              "(IPv4 host-order storage), prefix-length masks at /0,/31,/32,/127,/128, group structure of the hardware "
              "grammar, the order of visited addresses as a whole (the successor function and the end protocol are decided, R6) - value-level.",
